@@ -8,6 +8,8 @@ package dot
 // a graph as NewGraph builds it
 //@ pure func graphOK(dg *Graph) Bool = dg != nil && dg.ctorMap != nil && dg.groupMap != nil && dg.consumers != nil && dg.Failed != nil
 //@     && dg.Failed.ctors != nil && dg.Failed.groups != nil && (forall id CtorID :: id in dg.ctorMap ==> dg.ctorMap[id] != nil)
+//@     && (forall k nodeKey :: k in dg.groupMap ==> dg.groupMap[k] != nil && allocated(dg.groupMap[k]) && dg.groupMap[k].Results.arr <= $alloc)
+//@     && (forall k nodeKey :: k in dg.consumers ==> dg.consumers[k].arr != dg.Ctors.arr && dg.consumers[k].arr <= $alloc && dg.consumers[k].arr > 0) && dg.Ctors.arr <= $alloc
 
 // every result drawn in a cluster exists and has its node; the lists of failed
 // results never share storage with a cluster's result list (appending to
@@ -15,7 +17,10 @@ package dot
 //@ pure func resultsOK(dg *Graph) Bool = forall id CtorID, j int :: id in dg.ctorMap && 0 <= j && j < len(dg.ctorMap[id].Results) ==> dg.ctorMap[id].Results[j] != nil && dg.ctorMap[id].Results[j].Node != nil
 //@ pure func failedListsSeparate(dg *Graph) Bool = forall id CtorID :: id in dg.ctorMap ==> len(dg.ctorMap[id].Results) == 0
 //@     || (dg.ctorMap[id].Results.arr != dg.Failed.RootCauses.arr && dg.ctorMap[id].Results.arr != dg.Failed.TransitiveFailures.arr && dg.ctorMap[id].Results.arr <= $alloc && dg.ctorMap[id].Results.arr > 0)
-//@ pure func drawnOK(dg *Graph) Bool = graphOK(dg) && resultsOK(dg) && failedListsSeparate(dg)
+// the member list of a group never shares storage with a cluster's result list either
+//@ pure func groupListsSeparate(dg *Graph) Bool = forall k nodeKey, id CtorID :: k in dg.groupMap && id in dg.ctorMap && len(dg.ctorMap[id].Results) > 0 ==>
+//@     dg.groupMap[k].Results.arr != dg.ctorMap[id].Results.arr
+//@ pure func drawnOK(dg *Graph) Bool = graphOK(dg) && resultsOK(dg) && failedListsSeparate(dg) && groupListsSeparate(dg)
 
 //@ func NewGraph() (dg)
 //@   allocates plain
@@ -68,16 +73,21 @@ package dot
 //@   site call (*dot.Graph).failNode #1: assert[C19:missing-types-are-root-causes-when-nothing-failed-before] $arg0 == results[$i] && $arg1 == first
 
 //@ func (dg *Graph) getGroup(k) (g)
-//@   trusted
 //@   requires graphOK(dg)
 //@   modifies Graph.Groups, elems(*Group), map(Graph.groupMap)
 //@   allocates
-//@   ensures g != nil && graphOK(dg)
+//@   ensures[C19:a-group-node-per-group-key] g != nil && graphOK(dg) && k in dg.groupMap && dg.groupMap[k] == g
+//@   ensures[C19:a-known-group-is-reused] old(k in dg.groupMap) ==> g == old(dg.groupMap[k]) && kept(Graph.Groups, map(Graph.groupMap)) && unchangedAll()
+//@   ensures[C19:a-new-group-carries-its-key-and-joins-the-list] !old(k in dg.groupMap) ==> fresh(g) && g.Type == k.t && g.Name == k.group && g.Results == nil
+//@        && len(dg.Groups) == old(len(dg.Groups)) + 1 && dg.Groups[len(dg.Groups) - 1] == g
+//@   ensures[C19:other-groups-stay] forall k2 nodeKey :: k2 != k ==> (k2 in dg.groupMap) == old(k2 in dg.groupMap) && dg.groupMap[k2] == old(dg.groupMap[k2])
+//@   ensures forall x *Graph :: existed(x) && x != dg ==> x.Groups == old(x.Groups)
 
 //@ func (dg *Graph) FailGroupNodes(name, t, id) ()
 //@   requires graphOK(dg)
-//@   requires resultsOK(dg) && failedListsSeparate(dg)
+//@   requires resultsOK(dg) && failedListsSeparate(dg) && groupListsSeparate(dg)
 //@   ensures[C19:marking-a-failed-group-keeps-every-cluster] drawnOK(dg)
+//@   loop range dg.ctorMap[id].Results #1: invariant[C19:member-lists-separate-so-far] groupListsSeparate(dg)
 //@   loop range dg.ctorMap[id].Results #1: invariant kept(Result.Node)
 //@   loop range dg.ctorMap[id].Results #1: invariant[C19:lists-separate-so-far] failedListsSeparate(dg)
 //@   loop range dg.ctorMap[id].Results #1: invariant[C19:clusters-kept-so-far] resultsOK(dg)
@@ -91,18 +101,68 @@ package dot
 //@   loop range dg.ctorMap[id].Results #1: invariant graphOK(dg) && kept(Ctor.ErrorType, Group.ErrorType, map(Graph.ctorMap), Ctor.Results) && id in dg.Failed.ctors
 //@   site call (*dot.Graph).failNode #1: assert[C19:group-members-fail-with-the-same-classification] $arg1 == first
 
+// a grouped result joins the member list of its group (the group node is made on demand)
+//@ func (dg *Graph) addToGroup(r, id) ()
+//@   requires graphOK(dg) && r != nil && r.Node != nil
+//@   modifies Graph.Groups, elems(*Group), map(Graph.groupMap), Result.GroupIndex, Group.Results, elems(*Result)
+//@   allocates
+//@   let k = mk(nodeKey, r.Node.Type, "", r.Node.Group)
+//@   let g = dg.groupMap[k]
+//@   ensures graphOK(dg) && k in dg.groupMap
+//@   ensures[C19:a-grouped-result-joins-its-group] len(g.Results) == (old(k in dg.groupMap) ? old(len(dg.groupMap[k].Results)) : 0) + 1 && g.Results[len(g.Results) - 1] == r && r.GroupIndex == len(g.Results) - 1
+//@   ensures[C19:other-groups-keep-their-members] forall k2 nodeKey :: k2 != k ==> (k2 in dg.groupMap) == old(k2 in dg.groupMap) && dg.groupMap[k2] == old(dg.groupMap[k2])
+//@   ensures g.Results.arr <= $alloc && g.Results.arr > 0
+//@   ensures[C19:a-known-group-stays-the-same-node] old(k in dg.groupMap) ==> g == old(dg.groupMap[k])
+//@   ensures forall x *Group :: existed(x) && x != g ==> x.Results == old(x.Results)
+//@   ensures forall x *Result :: existed(x) && x != r ==> x.GroupIndex == old(x.GroupIndex)
+//@   ensures[C19:joining-a-known-group-writes-only-that-groups-list] old(k in dg.groupMap) ==> (let gg = g in keptExcept(old(gg.Results).arr, elems(ptr(Result))) && (gg.Results.arr == old(gg.Results).arr || fresh(gg.Results)))
+//@   ensures[C19:joining-a-new-group-writes-only-new-storage] !old(k in dg.groupMap) ==> fresh(g) && fresh(g.Results) && keptExcept(g.Results.arr, elems(ptr(Result)))
+//@   ensures forall x *Graph :: existed(x) && x != dg ==> x.Groups == old(x.Groups)
+//@   site call (*dot.Graph).getGroup #1: assert[C19:the-group-is-found-by-type-and-group-name] $recv == dg && $arg0 == k
+
 //@ func (dg *Graph) AddCtor(c, paramList, resultList) ()
-//@   trusted
 //@   requires graphOK(dg) && c != nil
+//@   requires[C19:drawn-parameters-are-well-formed] forall j int :: 0 <= j && j < len(paramList) ==> paramList[j] != nil && paramList[j].Node != nil
+//@   requires[C14:a-group-dependency-has-a-slice-type] forall j int :: 0 <= j && j < len(paramList) && paramList[j].Node.Group != "" ==> paramList[j].Node.Type != nil && kind(paramList[j].Node.Type) == kSlice()
 // the cluster's result list is the list it is given: it must hold well-formed
-// results and must not be the storage of a failure list
+// results and must not be the storage of a failure list or of a group's member list
 //@   requires[C19:drawn-results-are-well-formed] forall j int :: 0 <= j && j < len(resultList) ==> resultList[j] != nil && resultList[j].Node != nil
 //@   requires[C19:drawn-result-list-is-not-a-failure-list] len(resultList) == 0 || (resultList.arr != dg.Failed.RootCauses.arr && resultList.arr != dg.Failed.TransitiveFailures.arr && resultList.arr <= $alloc && resultList.arr > 0)
-//@   ensures old(resultsOK(dg) && failedListsSeparate(dg)) ==> resultsOK(dg) && failedListsSeparate(dg)
+//@   requires[C19:drawn-result-list-is-not-a-member-list] len(resultList) == 0 || (forall k nodeKey :: k in dg.groupMap ==> dg.groupMap[k].Results.arr != resultList.arr)
 //@   modifies Graph.Ctors, elems(*Ctor), map(Graph.ctorMap), map(Graph.consumers), Graph.Groups, elems(*Group), map(Graph.groupMap), Ctor.Params, Ctor.GroupParams, Ctor.Results, Result.GroupIndex, Group.Results, elems(*Result), elems(*Param)
 //@   allocates plain
 //@   ensures graphOK(dg) && len(dg.Ctors) == old(len(dg.Ctors)) + 1 && dg.Ctors[len(dg.Ctors) - 1] == c
 //@   ensures forall i int :: 0 <= i && i < old(len(dg.Ctors)) ==> dg.Ctors[i] == old(dg.Ctors[i])
+//@   ensures[C19:a-cluster-holds-exactly-the-results-it-was-given] c.Results == resultList && c.ID in dg.ctorMap && dg.ctorMap[c.ID] == c
+//@   ensures[C19:every-dependency-is-an-edge-or-a-group-edge] len(c.Params) + len(c.GroupParams) == len(paramList)
+//@   ensures[C19:every-plain-dependency-is-an-edge] forall i int :: 0 <= i && i < len(paramList) && old(paramList[i].Node.Group) == "" ==> (exists j int :: 0 <= j && j < len(c.Params) && c.Params[j] == old(paramList[i]))
+//@   ensures[C19:every-edge-is-a-plain-dependency] forall j int :: 0 <= j && j < len(c.Params) ==> (exists i int :: 0 <= i && i < len(paramList) && c.Params[j] == old(paramList[i]) && old(paramList[i].Node.Group) == "")
+//@   loop range paramList #1: invariant[C19:plain-dependencies-so-far-are-edges] forall i int :: 0 <= i && i < $i && paramList[i].Node.Group == "" ==> (exists j int :: 0 <= j && j < len(params) && params[j] == paramList[i])
+//@   loop range paramList #1: invariant[C19:edges-so-far-are-plain-dependencies] forall j int :: 0 <= j && j < len(params) ==> (exists i int :: 0 <= i && i < $i && params[j] == paramList[i] && paramList[i].Node.Group == "")
+//@   loop range paramList #1: invariant kept(Param.Node, Node.Group, Node.Type)
+//@   requires resultsOK(dg) && failedListsSeparate(dg) && groupListsSeparate(dg)
+//@   ensures[C19:adding-a-cluster-keeps-the-graph-well-formed] drawnOK(dg)
+//@   loop range paramList #1: invariant[C19:failure-lists-apart-while-sorting-dependencies] failedListsSeparate(dg)
+//@   loop range paramList #1: invariant[C19:member-lists-apart-while-sorting-dependencies] groupListsSeparate(dg)
+//@   loop range paramList #1: invariant[C19:clusters-intact-while-sorting-dependencies] resultsOK(dg)
+//@   loop range resultList #1: invariant[C19:failure-lists-apart-while-joining-groups] failedListsSeparate(dg)
+//@   loop range resultList #1: invariant[C19:member-lists-apart-while-joining-groups] groupListsSeparate(dg)
+//@   loop range resultList #1: invariant[C19:clusters-intact-while-joining-groups] resultsOK(dg)
+//@   loop range paramList #2: invariant[C19:failure-lists-apart-while-recording-consumers] failedListsSeparate(dg)
+//@   loop range paramList #2: invariant[C19:member-lists-apart-while-recording-consumers] groupListsSeparate(dg)
+//@   loop range paramList #2: invariant[C19:clusters-intact-while-recording-consumers] resultsOK(dg)
+//@   loop range paramList #1: complete[C19:every-declared-dependency-is-sorted-into-an-edge]
+//@   loop range resultList #1: complete[C19:every-result-is-looked-at-for-its-group]
+//@   loop range paramList #2: complete[C19:every-dependency-is-recorded-with-its-consumer]
+//@   loop range paramList #1: invariant (len(resultList) == 0 || (forall k nodeKey :: k in dg.groupMap ==> dg.groupMap[k].Results.arr != resultList.arr))
+//@   loop range paramList #1: invariant graphOK(dg) && len(params) + len(groupParams) == $i && (cap(params) == 0 || fresh(params)) && (cap(groupParams) == 0 || fresh(groupParams)) && paramList.arr <= $alloc
+//@        && (forall j int :: 0 <= j && j < len(paramList) ==> paramList[j] == old(paramList[j]))
+//@   loop range resultList #1: invariant graphOK(dg)
+//@   loop range resultList #1: invariant kept(Result.Node, Node.Group, Node.Type)
+//@   loop range resultList #1: invariant[C19:member-lists-stay-apart-from-the-result-list] len(resultList) == 0 || (forall k nodeKey :: k in dg.groupMap ==> dg.groupMap[k].Results.arr != resultList.arr)
+//@   loop range resultList #1: invariant[C19:the-result-list-is-not-rewritten] forall j int :: 0 <= j && j < len(resultList) ==> resultList[j] == old(resultList[j])
+//@   loop range paramList #2: invariant[C19:earlier-clusters-stay-while-consumers-are-recorded] dg.Ctors == old(dg.Ctors) && (forall i int :: 0 <= i && i < len(dg.Ctors) ==> dg.Ctors[i] == old(dg.Ctors[i]))
+//@   loop range paramList #2: invariant graphOK(dg) && (forall j int :: 0 <= j && j < len(paramList) ==> paramList[j] == old(paramList[j]))
 
 // Pruning (not verified): removes the clusters and groups that did not fail.
 //@ func (dg *Graph) PruneSuccess() ()
